@@ -319,7 +319,7 @@ class PopulationChangeRelativeTolerance(EvolvingAnsatzMinimumEigensolverBaseTerm
                 ),
             )
 
-            self._relative_change_history.append(distance / last_population_median_expectation)
+            self._relative_change_history.append(distance / abs(last_population_median_expectation))
 
         self._last_population_evaluation = population_evaluation
 
